@@ -105,7 +105,8 @@ def extract():
     if norm("while name .as_ref() .map_or(true, |n| self.relation_instance_names.contains(n)) { *name = Some(self.ctx.anchor.table_name.gen()); } self.relation_instance_names.insert(name.clone().unwrap());") not in norm(re.sub(r"//[^\n]*", "", pp)):
         raise ExtractError("RelVarNameAssigner: the regenerate-until-unused loop is no longer the modelled one")
     an2 = norm(read("prqlc/prqlc/src/sql/pq/anchor.rs"))
-    if ("if let Some(new) = &mut new_name { if used_new_names.contains(new) { *new = ctx.col_name.gen(); ctx.column_names.insert(*old_cid, new.clone()); } "
+    an2 = norm(read("prqlc/prqlc/src/sql/pq/anchor.rs"))      # norm() drops // comments
+    if ("if let Some(new) = &mut new_name { if used_new_names.contains(new) { while used_new_names.contains(new) { *new = ctx.col_name.gen(); } ctx.column_names.insert(*old_cid, new.clone()); } "
             "used_new_names.insert(new.clone()); ctx.column_names.insert(new_cid, new.clone()); }") not in an2:
         raise ExtractError("anchor_split: the rename-on-duplicate step is no longer the modelled one")
     return info
